@@ -30,6 +30,10 @@ def run(chk, tier):
         # R07.8 'calls without an applicable pattern fail loudly or fall through as documented': fall-through needs every pattern to have
         # *rejected* the arguments - a pattern that cannot be evaluated (matcher error) is an error, never a rejection
         E.selector_rules(chk, F, cfg, r_scan='R07.8', r_pure='R07.8.pure', r_ord='R07.8.ord', r_bump=None)
+        # R07.11 'patterns that all reject the arguments': whether a pattern rejects is the matching! semantics (guard applies to every
+        # alternative) - the translation validation of C06, reported here under its own rule ids (R06.x)
+        if cfg == 'std':
+            X.check_patterns(chk, tier, chk.seed, {'C06'})
         # R07.10 a call made by a default body through the delegation helper is a call to that very method of the mock: the helper's
         # hand-written supertrait impls forward to the same trait's same method (an unmentioned `Debug::fmt` must fail, not be answered
         # by `Display::fmt` patterns) - mock-core configuration
